@@ -3,6 +3,7 @@ package link
 import (
 	"encoding/binary"
 	"fmt"
+	"os"
 
 	"google.golang.org/protobuf/proto"
 	"google.golang.org/protobuf/reflect/protoreflect"
@@ -84,6 +85,8 @@ func genC13(r *kernel.Rand, sc *kernel.Scenario, tier string, run int) {
 		}
 		sc.Faults = append(sc.Faults, kernel.St("trunc-enum", "m", 0, "t", t, "seed", int64(r.Uint64()>>2)))
 	}
+	// ... and an expired read deadline at every offset (one decoder per run)
+	sc.Faults = append(sc.Faults, kernel.St("stall-enum", "m", 0, "t", target(), "seed", int64(r.Uint64()>>2)))
 	// protobuf mutation sites of every base envelope, so that a fault names its
 	// site by path (a replay then means the same site on a tree whose encoder
 	// produces a slightly different message)
@@ -231,8 +234,47 @@ func putInt(b []byte, v int64, be bool) {
 
 // decodeWith feeds data to the decoder of target t for value v; the stream
 // ends after the data (a connection that closes).
-func decodeWith(v *value, t int, data []byte) outcome {
+// stallSpin is the panic value of a stalled reader that was polled
+// stallPollLimit times after it had reported its expired deadline.
+type stallSpin struct{}
+
+const stallPollLimit = 2000
+
+// stalledEnd delivers what the link holds and then reports an expired read
+// deadline on every further Read, as a net.Conn does whose peer stopped
+// sending in the middle of a message: the deadline is absolute and stays
+// expired. A decoder has to give up with that error; one that keeps polling
+// would spin for ever, which the reader turns into a panic of its own kind.
+type stalledEnd struct {
+	*End
+	polls int
+}
+
+func (s *stalledEnd) Read(p []byte) (int, error) {
+	n, err := s.End.Read(p)
+	if err == ErrStarved {
+		s.polls++
+		if s.polls > stallPollLimit {
+			panic(stallSpin{})
+		}
+		return 0, os.ErrDeadlineExceeded
+	}
+	return n, err
+}
+
+func decodeWith(v *value, t int, data []byte, stall bool) outcome {
 	l := Preload(data, nil)
+	if stall {
+		rd := &stalledEnd{End: l.B}
+		switch {
+		case v.kind.env && t == tMsg:
+			return guarded(func() (any, error) { return wire.DecodeMsg(rd) })
+		case v.kind.env:
+			conn := wirenet.NewIoConn(rd, serializers[t&1])
+			return guarded(func() (any, error) { return conn.Recv() })
+		}
+		return guarded(func() (any, error) { return v.kind.dec(rd) })
+	}
 	l.A.CloseWrite()
 	switch {
 	case v.kind.env && t == tMsg:
@@ -503,6 +545,9 @@ type faultCase struct {
 	// declared names a dimension field of the encoding that the fault set
 	// above its documented limit ("" if none): such an encoding must be rejected
 	declared string
+	// stall: the bytes are not followed by the end of the stream but by a read
+	// deadline that has expired (every further Read reports the timeout)
+	stall bool
 }
 
 // dimFields are the positions of the dimension fields in the native encodings
@@ -554,6 +599,25 @@ func expand(f *kernel.Step, vals []*value) (v *value, cases []faultCase) {
 				st := kernel.St("trunc", "m", f.Int("m"), "t", t, "at", at)
 				cases = append(cases, faultCase{t: t, data: b.data[:at], label: fmt.Sprintf("truncated after %d of %d bytes", at, n), ex: &st})
 			}
+		}
+	case "stall":
+		at := modLen(f.Int("at"), n)
+		cases = append(cases, faultCase{t: t, data: b.data[:at], stall: true, label: fmt.Sprintf("read deadline expired after %d of %d bytes", at, n)})
+	case "stall-enum":
+		ats := make([]int, 0, 256)
+		if n <= truncEnumMax {
+			for at := 0; at < n; at++ {
+				ats = append(ats, at)
+			}
+		} else {
+			r := kernel.NewRand(kernel.Derive(uint64(f.Int("seed")), "stall"))
+			for i := 0; i < 256; i++ {
+				ats = append(ats, r.Intn(n))
+			}
+		}
+		for _, at := range ats {
+			st := kernel.St("stall", "m", f.Int("m"), "t", t, "at", at)
+			cases = append(cases, faultCase{t: t, data: b.data[:at], stall: true, label: fmt.Sprintf("read deadline expired after %d of %d bytes", at, n), ex: &st})
 		}
 	case "flip":
 		if n == 0 {
